@@ -151,6 +151,10 @@ def gen_config(seed, tier='quick', family=None):
             # 'default' solves the small local problems of these system sizes by exact diagonalisation; with 'lanczos'
             # the Lanczos tolerances that DMRG adapts to the truncation error during the run come into play
             'diag_method': wl.choice(['default', 'lanczos']),
+            # convergence criteria (only matter when the sweep count is not fixed): entropy criterion switched off,
+            # tighter energy criterion
+            'max_S_err': wl.choice([None, None, 1.0]),
+            'max_E_err': wl.choice([None, None, 1.0e-10]),
         })
         # chi_list: ramp the bond dimension up during the run; a value of None means "chi_max at initialisation"
         r = wl.random()
@@ -228,6 +232,10 @@ def build_params(cfg, out_name='results'):
               'max_trunc_err': None}  # small chi on purpose: do not abort on the truncation-error sanity check
         if cfg.get('combine') and fam != 'vumps':
             ap['combine'] = True
+        if not cfg['fixed_sweeps'] and fam != 'vumps':
+            for k in ('max_S_err', 'max_E_err'):
+                if cfg.get(k) is not None:
+                    ap[k] = cfg[k]
         if cfg.get('diag_method', 'default') != 'default' and fam != 'vumps':
             ap['diag_method'] = cfg['diag_method']
         if cfg.get('chi_list'):
